@@ -72,6 +72,7 @@ def check_tables(program, rep):
     items_iter = f'{h}.__events__.items()'
     n_ins = 0
     bad_idem = bad_tab = None
+    add_facts = []      # (store event, ref text, {(K, M)}, {(A, B)})
     for ex in exits:
         tr = ex.state.trace
         inserts = []
@@ -120,6 +121,18 @@ def check_tables(program, rep):
             if isinstance(el, ast.Tuple) and len(el.elts) == 2:
                 ref_text = norm(el.elts[0])
                 pairs_events.append((key, norm(el.elts[1])))
+            elif isinstance(el, ast.Call) and program.lookup_class(
+                    f.module, dotted(el.func) or '') is not None:
+                rc_ = program.lookup_class(f.module, dotted(el.func))
+                bad_tab = (e, f'the element filed under _events is a '
+                           f'{rc_.name} object, which compares by identity '
+                           '(no field-wise __eq__ / __hash__): the set does '
+                           'not recognise a second registration of the same '
+                           'handler - its deliveries double, and one '
+                           'remove_handler leaves entries that still receive '
+                           'events' if '__eq__' not in rc_.methods else
+                           'the element filed under _events is not a '
+                           '(reference, method) pair')
             else:
                 bad_tab = (e, 'the element filed under _events is not a '
                            '(reference, method) pair')
@@ -185,12 +198,14 @@ def check_tables(program, rep):
                                   'is not built from the (event, method) '
                                   "pairs of the handler's mapping")
             continue
-        if hkey != ref_text or h_pairs != ev_pairs:
+        if hkey != ref_text or len(h_pairs) != len(ev_pairs):
             bad_tab = bad_tab or (
                 hs, f'_events receives {sorted(ev_pairs)} under reference '
                 f'{ref_text}; _handlers[{hkey}] records {sorted(h_pairs)}: '
                 'removal cannot find what was inserted, or a mapped event is '
                 'not registered')
+        else:
+            add_facts.append((hs, ref_text, ev_pairs, h_pairs))
     rep.floor('C03.tables', 'insertions into _events on the paths of '
               'add_handler', n_ins, 1)
     rep.check(bad_idem is None, 'C03.idempotent', site,
@@ -249,13 +264,48 @@ def check_tables(program, rep):
                 and unget(e.sym.text) == rec]
         for it in items:
             t = it.target.text
-            want = f'{EVENTS}[{t}[0]].remove(({r}, {t}[1]))'
-            want2 = f'{EVENTS}[{t}[0]].discard(({r}, {t}[1]))'
-            if not any(e.kind == 'call' and norm(e.sym.node) in (want, want2)
-                       for e in tr):
-                bad = bad or (it, 'the loop does not remove (ref, method) '
-                              'from _events[event_name] for each recorded '
-                              'pair')
+            rm = [e.sym.node for e in tr if e.kind == 'call' and isinstance(
+                e.sym.node, ast.Call) and isinstance(
+                    e.sym.node.func, ast.Attribute)
+                and e.sym.node.func.attr in ('remove', 'discard')
+                and len(e.sym.node.args) == 1 and isinstance(
+                    e.sym.node.func.value, ast.Subscript)
+                and dotted(e.sym.node.func.value.value) == EVENTS
+                and t in norm(e.sym.node)]
+            if len(rm) != 1:
+                bad = bad or (it, 'the loop does not remove one element from '
+                              '_events[event_name] for each recorded pair')
+                continue
+            # what is removed, as a function of the record t and the
+            # reference r - composed with what add_handler records (A, B) it
+            # must give back the key and the element add_handler filed
+            kx, elx = norm(rm[0].func.value.slice), norm(rm[0].args[0])
+            for hs_, ref_text_, ev_pairs_, h_pairs_ in add_facts:
+                import re as _re
+                got = set()
+                for a_, b_ in h_pairs_:
+                    def comp(txt):
+                        txt = txt.replace(f'{t}[0]', a_).replace(
+                            f'{t}[1]', f'({b_})' if ',' in b_ and not
+                            b_.startswith('(') else b_)
+                        txt = _re.sub(rf'(?<![\w.]){_re.escape(r)}(?![\w])',
+                                      ref_text_.replace('\\', '\\\\'), txt)
+                        try:
+                            return norm(ast.parse(txt, mode='eval').body)
+                        except SyntaxError:
+                            return txt
+                    got.add((comp(kx), comp(elx)))
+                want = {(k_, norm(ast.parse(f'({ref_text_}, {m_})',
+                                            mode='eval').body))
+                        for k_, m_ in ev_pairs_}
+                if got != want:
+                    bad = bad or (
+                        it, f'add_handler files {sorted(want)} and records '
+                        f'{sorted(h_pairs_)} under the reference; removal '
+                        f'takes {elx} out of _events[{kx}] for each record, '
+                        f'i.e. {sorted(got)}: removal cannot find what was '
+                        'inserted (KeyError, or a stale entry that still '
+                        'receives events)')
         dels = [i for i, e in enumerate(tr) if (
             e.kind == 'del' and unget(e.target.text) == rec) or (
                 e.kind == 'call' and norm(e.sym.node).startswith(
@@ -374,6 +424,229 @@ def check_unknown(program, rep):
                   line=getattr(bad.node, 'lineno', None) if bad else None)
 
 
+class _MapVal:
+    """A mapping built from the three sources of the decorator: `layers`
+    lists them by precedence (first wins); `fresh` says the object is private
+    to this application of the decorator."""
+    def __init__(self, layers, fresh, what=''):
+        self.layers, self.fresh, self.what = list(layers), fresh, what
+
+    def copy(self):
+        return _MapVal(self.layers, True)
+
+
+class _NoModel(Exception):
+    pass
+
+
+def eval_mapping(f, dec, cls):
+    """Abstract evaluation of the decorator: which of (mappings, names,
+    inherited) ends up in cls.__events__, with which precedence, and whether
+    an object shared with other classes is mutated.  Raises _NoModel on
+    anything outside the dict-merging fragment."""
+    a = f.node.args
+    names_p = a.vararg.arg if a.vararg else None
+    maps_p = a.kwarg.arg if a.kwarg else None
+    problems = []
+    result = []
+
+    def ev(n, env, inner):
+        if isinstance(n, ast.Name):
+            if n.id in env:
+                return env[n.id]
+            if n.id == maps_p:
+                return _MapVal(['mappings'], False, 'the keyword arguments of '
+                               'the decorator call')
+            raise _NoModel(norm(n))
+        if isinstance(n, ast.Dict):
+            if not n.keys:
+                return _MapVal([], True)
+            if all(k is None for k in n.keys):
+                out = []
+                for v in reversed(n.values):
+                    out += ev(v, env, inner).layers
+                return _MapVal(out, True)
+            raise _NoModel(norm(n))
+        if isinstance(n, ast.BinOp) and isinstance(n.op, ast.BitOr):
+            l, r = ev(n.left, env, inner), ev(n.right, env, inner)
+            return _MapVal(r.layers + l.layers, True)
+        if isinstance(n, ast.Call):
+            d = dotted(n.func) or ''
+            if d == 'getattr' and len(n.args) == 3 and norm(n.args[0]) == cls \
+                    and isinstance(n.args[1], ast.Constant) \
+                    and n.args[1].value == '__events__':
+                dflt = ev(n.args[2], env, inner)
+                if dflt.layers:
+                    raise _NoModel(norm(n))
+                return _MapVal(['inherited'], False, 'the mapping of the '
+                               '(base) class')
+            if d == 'zip' and len(n.args) == 2 and all(
+                    norm(x) == names_p for x in n.args):
+                return _MapVal(['names'], True, 'pairs')
+            if d == 'dict':
+                out = []
+                for k in reversed(n.keywords):
+                    if k.arg is not None:
+                        raise _NoModel(norm(n))
+                    out += ev(k.value, env, inner).layers
+                if len(n.args) > 1:
+                    raise _NoModel(norm(n))
+                if n.args:
+                    out += ev(n.args[0], env, inner).layers
+                return _MapVal(out, True)
+            if isinstance(n.func, ast.Attribute) and n.func.attr == 'copy' \
+                    and not n.args:
+                return ev(n.func.value, env, inner).copy()
+            if isinstance(n.func, ast.Attribute) and n.func.attr == 'items' \
+                    and not n.args:
+                return ev(n.func.value, env, inner)
+            if d.split('.')[-1] == 'ChainMap':
+                out = []
+                for x in n.args:
+                    out += ev(x, env, inner).layers
+                return _MapVal(out, True)
+        if isinstance(n, ast.DictComp) and len(n.generators) == 1 \
+                and not n.generators[0].ifs:
+            g = n.generators[0]
+            tg = [norm(x) for x in g.target.elts] if isinstance(
+                g.target, ast.Tuple) else [norm(g.target)]
+            if norm(g.iter) == names_p and tg == [norm(n.key)] \
+                    == [norm(n.value)]:
+                return _MapVal(['names'], True)
+            src = ev(g.iter, env, inner)
+            if len(tg) == 2 and [norm(n.key), norm(n.value)] == tg:
+                return src.copy()
+        if norm(n) == f'{cls}.__events__':
+            return _MapVal(['inherited'], False, 'the mapping of the (base) '
+                           'class')
+        raise _NoModel(norm(n))
+
+    def mutate(tgt, node, what):
+        if not tgt.fresh:
+            problems.append((node, f'{what} changes {tgt.what or "a shared mapping"} '
+                             'in place: every other class that shares the '
+                             'object (the base class and its other '
+                             'subclasses, or every class decorated by the '
+                             'same decorator object) gets these events too - '
+                             'instances receive foreign callbacks, or '
+                             'add_handler raises AttributeError'))
+
+    def run(stmts, env, inner):
+        for s in stmts:
+            if isinstance(s, ast.Expr) and isinstance(s.value, ast.Constant):
+                continue
+            if isinstance(s, ast.Pass):
+                continue
+            if isinstance(s, ast.FunctionDef):
+                if s is dec:
+                    continue
+                raise _NoModel(s.name)
+            if isinstance(s, ast.Return):
+                if inner and s.value is not None and norm(s.value) != cls:
+                    raise _NoModel(norm(s))
+                continue
+            if isinstance(s, ast.If):
+                # a guard `if <nothing to add>: return cls`
+                if inner and len(s.body) == 1 and isinstance(
+                        s.body[0], ast.Return) and not s.orelse \
+                        and norm(s.body[0].value) == cls:
+                    t = s.test
+                    parts = t.values if isinstance(t, ast.BoolOp) and \
+                        isinstance(t.op, ast.And) else [t]
+                    empt = []
+                    for p_ in parts:
+                        if not (isinstance(p_, ast.UnaryOp) and isinstance(
+                                p_.op, ast.Not)):
+                            raise _NoModel(norm(t))
+                        o = p_.operand
+                        if norm(o) == names_p:
+                            empt.append('names')
+                        else:
+                            empt += ev(o, env, inner).layers
+                    if not {'names', 'mappings'} <= set(empt):
+                        problems.append((t, 'the decorator returns the class '
+                                         'untouched although event names or '
+                                         'mappings were given'))
+                    continue
+                raise _NoModel(norm(s.test))
+            if isinstance(s, (ast.Assign, ast.AnnAssign)):
+                tg = s.targets[0] if isinstance(s, ast.Assign) else s.target
+                if isinstance(s, ast.Assign) and len(s.targets) != 1:
+                    raise _NoModel('multiple targets')
+                if norm(tg) == f'{cls}.__events__':
+                    result.append((s, ev(s.value, env, inner)))
+                    continue
+                if isinstance(tg, ast.Name):
+                    env[tg.id] = ev(s.value, env, inner)
+                    continue
+                if isinstance(tg, ast.Subscript) and isinstance(
+                        tg.value, ast.Name) and tg.value.id in env:
+                    raise _NoModel(norm(s))
+                raise _NoModel(norm(tg))
+            if isinstance(s, ast.AugAssign) and isinstance(s.op, ast.BitOr) \
+                    and isinstance(s.target, ast.Name) \
+                    and s.target.id in env:
+                t_ = env[s.target.id]
+                mutate(t_, s, f'{norm(s.target)} |= ...')
+                t_.layers = ev(s.value, env, inner).layers + t_.layers
+                continue
+            if isinstance(s, ast.Expr) and isinstance(s.value, ast.Call) \
+                    and isinstance(s.value.func, ast.Attribute) \
+                    and s.value.func.attr == 'update' \
+                    and isinstance(s.value.func.value, ast.Name) \
+                    and s.value.func.value.id in env \
+                    and len(s.value.args) == 1 and not s.value.keywords:
+                t_ = env[s.value.func.value.id]
+                mutate(t_, s.value, norm(s.value.func) + '(...)')
+                t_.layers = ev(s.value.args[0], env, inner).layers + t_.layers
+                continue
+            if isinstance(s, ast.Expr) and isinstance(s.value, ast.Call) \
+                    and dotted(s.value.func) == 'setattr' \
+                    and len(s.value.args) == 3 \
+                    and norm(s.value.args[0]) == cls and isinstance(
+                        s.value.args[1], ast.Constant) \
+                    and s.value.args[1].value == '__events__':
+                result.append((s, ev(s.value.args[2], env, inner)))
+                continue
+            if isinstance(s, ast.For) and not s.orelse and isinstance(
+                    s.target, ast.Tuple) and len(s.target.elts) == 2 \
+                    and len(s.body) == 1:
+                k_, v_ = [norm(x) for x in s.target.elts]
+                src = ev(s.iter, env, inner)
+                b = s.body[0]
+                if isinstance(b, ast.Expr) and isinstance(b.value, ast.Call) \
+                        and isinstance(b.value.func, ast.Attribute) \
+                        and b.value.func.attr == 'setdefault' \
+                        and isinstance(b.value.func.value, ast.Name) \
+                        and b.value.func.value.id in env \
+                        and [norm(x) for x in b.value.args] == [k_, v_]:
+                    t_ = env[b.value.func.value.id]
+                    mutate(t_, b.value, norm(b.value.func) + '(...)')
+                    t_.layers = t_.layers + src.layers
+                    continue
+                if isinstance(b, ast.Assign) and len(b.targets) == 1 \
+                        and isinstance(b.targets[0], ast.Subscript) \
+                        and isinstance(b.targets[0].value, ast.Name) \
+                        and b.targets[0].value.id in env \
+                        and norm(b.targets[0].slice) == k_ \
+                        and norm(b.value) == v_:
+                    t_ = env[b.targets[0].value.id]
+                    mutate(t_, b, norm(b.targets[0]) + ' = ...')
+                    t_.layers = src.layers + t_.layers
+                    continue
+            raise _NoModel(f'statement at line {s.lineno}')
+
+    env = {}
+    run([s for s in f.node.body if not isinstance(s, ast.Return)], env, False)
+    # what the outer function built is shared by every application
+    for v in env.values():
+        v.fresh = False
+        v.what = v.what if not v.fresh and v.what and 'class' in v.what \
+            else 'a mapping built once per decorator object'
+    run(dec.body, env, True)
+    return result, problems
+
+
 def check_mapping(program, rep):
     f = program.func('desper.events', 'event_handler')
     inner = [n for n in ast.walk(f.node) if isinstance(n, ast.FunctionDef)
@@ -385,6 +658,36 @@ def check_mapping(program, rep):
     dec = inner[0]
     cls = dec.args.args[0].arg
     site = f.where
+    try:
+        result, problems = eval_mapping(f, dec, cls)
+    except _NoModel:
+        result = None
+    if result is not None and len(result) == 1:
+        st_, val = result[0]
+        for node, why in problems[:1]:
+            rep.bad('C03.mapping', site, node, why,
+                    line=getattr(node, 'lineno', dec.lineno))
+        if not problems:
+            rep.ok('C03.mapping', site, 'inherited __events__',
+                   'no mapping shared with another class is changed in place',
+                   line=dec.lineno)
+        rep.check(val.fresh, 'C03.mapping', site, st_,
+                  'cls.__events__ is assigned a fresh mapping',
+                  f'cls.__events__ is assigned {val.what or "a shared mapping"} '
+                  'itself: several classes share one dict', line=st_.lineno)
+        seen = []
+        for l_ in val.layers:
+            if l_ not in seen:
+                seen.append(l_)
+        rep.check(seen == ['mappings', 'names', 'inherited'], 'C03.mapping',
+                  site, st_,
+                  'explicit mappings override plain names, which override '
+                  'the inherited entries; all three are kept',
+                  f'cls.__events__ is composed with precedence {seen} '
+                  "(first wins), not ['mappings', 'names', 'inherited']: "
+                  'inherited entries override the class\'s own, or some of '
+                  'the events are lost', line=st_.lineno)
+        return
     borrowed = set()
     for n in ast.walk(dec):
         if isinstance(n, ast.Assign) and len(n.targets) == 1 and isinstance(
